@@ -66,7 +66,9 @@ def obs_subject(case):
 STAGES = {"arrangements": (obs_subject, "SubjectTrace")}
 EXPRS = ["tomorrow 8pm", "friday 8pm-9pm", "5.3.2021", "monday 9:00 - 10:30", "next friday at noon", "31.12. 23:59", "today",
          "10-12-2021", "in 3 days"[3:], "tomorrow morning", "8:30", "monday", "5 march 2021 17:00", "heute 15 uhr", "12.5."]
-ORD = ["the", "and", "mom", "meeting", "dinner", "team", "report", "with", "about"]
+# ordinary words incl. words that contain a '#' without being a hashtag (C#, F#, a lone #): they are words of the subject, and no
+# label may be made out of the blank and the word that follow them
+ORD = ["the", "and", "mom", "meeting", "dinner", "team", "report", "with", "about", "C#", "F#", "#"]
 TAGS = ["work", "Family", "a_b", "x-y", "_todo", "Q3", "food", "a", "x", "x1", "team", "team-b", "work2", "Q", "_", "food_"]
 # pairs in which one hashtag is a proper prefix of the other (both orders are generated)
 PREFIX_PAIRS = [("team", "team-b"), ("x", "x1"), ("a", "a_b"), ("work", "work2"), ("Q", "Q3"), ("food", "food_"), ("_", "_todo")]
